@@ -60,6 +60,9 @@ type Op struct {
 	// directly, as the text-UI command `undo` does; Async = from a goroutine of its own), "undostart" (clean shutdown, then
 	// NewChainExt with UndoBlocks = N as `gocoin -undo N` does, clean shutdown, normal restart) and "settle" (wait until the
 	// asynchronous operations have returned, at most N ms) are implemented by missOp
+	// miss4.go: ops restart / crestart / undostart / undo with Name = the block the node must be at right after the operation
+	// (restart ops: right after NewChainExt), crestart with Parent = the block the node must be at after the client's recovery loop
+	// ("" = the block before the shutdown: the loop is a no-op)
 	Big bool
 	Low bool
 	// High = the block's records lie in maps the writer reaches late: its transaction's txid and its coinbase's txid start with
@@ -84,6 +87,9 @@ type Workload struct {
 	// miss4.go closeTie: the history as the model of Close sees it (Model/PersistIdx.lean, oracle op closeg): c:<block name> commit,
 	// u:<block name gone back to> undo, i:<skip> Idle, r restart; "base" is the base chain's tip
 	CloseTok []string
+	// miss4.go: the directories of the client-mode clean shutdowns inside the history (op crestart) are ALSO re-opened by fresh
+	// client-mode processes (closedRestarts)
+	CloseCap bool
 }
 
 func blk(name, parent string, nout int, spend ...string) Op {
